@@ -44,7 +44,7 @@ REQUIRED = ["ops_executed", "rechecks", "handle_reads", "node_writes", "detach_n
             "detach_branch", "detach_compartment", "tree_copies", "independence_probes",
             "slices_checked", "index_errors_checked", "branch_segments_checked",
             "tree_segments_checked", "adjacency_checked", "pid_writes",
-            "worlds_with_other_column_dtypes"]
+            "worlds_with_other_column_dtypes", "relatives_checked", "mixed_owner_containers"]
 FLOOR = {"quick": 250, "thorough": 5000}
 SHARDS = {"quick": 8, "thorough": 16}
 
@@ -204,7 +204,8 @@ def _run_history(ctx, case):
 
     ops = ["node", "node", "write", "write", "write", "index", "slice", "col", "relatives",
            "path", "branch", "comp", "tree_segments", "adjacency", "detach_node", "detach_path",
-           "detach_branch", "detach_comp", "copy", "write_free", "write_free", "reparent"]
+           "detach_branch", "detach_comp", "copy", "write_free", "write_free", "reparent",
+           "mixed_segments"]
     for step in range(case["length"]):
         op = ops[int(rng.integers(0, len(ops)))]
         ctx.count("ops_executed")
@@ -292,7 +293,10 @@ def _run_history(ctx, case):
                   f"tree[{k!r}] differs from the shadow")
         elif op == "relatives":
             i = int(rng.integers(0, n))
-            nd = t.node(i)
+            # the same node addressed by position, from the end, or with a numpy scalar
+            nd = (t.node(i), t.node(i - n), t[i - n], t.node(np.int32(i - n)), t[np.int64(i)])[
+                int(rng.integers(0, 5))]
+            ctx.count("relatives_checked")
             p = nd.parent()
             want = int(W.cols["pid"][i])
             _need((p is None and want == -1) or (p is not None and int(p.id) == want),
@@ -342,6 +346,28 @@ def _run_history(ctx, case):
                 _need(_eq(segs.r()[j], [W.cols["r"][L[0]], W.cols["r"][L[1]]]) and
                       segs.xyz().shape == (len(segs), 2, 3) and segs.xyzr().shape == (len(segs), 2, 4),
                       "tree-segments", "Compartments accessors differ")
+        elif op == "mixed_segments":
+            # a container assembled by the caller from the segments of several branches (each
+            # branch numbers its nodes locally): the container reports every member's own nodes
+            from swcgeom.core.compartment import Compartments
+
+            members, want_ids = [], []
+            for L in brs[:6]:
+                obj = lib_brs.get(L)
+                if obj is None:
+                    continue
+                for j, s_ in enumerate(obj.get_segments()):
+                    members.append(s_)
+                    want_ids.append([L[j], L[j + 1]])
+            if members:
+                cont = Compartments(members)
+                ctx.count("mixed_owner_containers")
+                want_x = np.array([[W.cols["x"][a], W.cols["x"][b]] for a, b in want_ids])
+                want_r = np.array([[W.cols["r"][a], W.cols["r"][b]] for a, b in want_ids])
+                _need(_eq(cont.x(), want_x) and _eq(cont.r(), want_r)
+                      and cont.xyz().shape == (len(members), 2, 3), "mixed-container",
+                      "a Compartments container built from several branches' segments reports "
+                      "other nodes than its members do")
         elif op == "adjacency":
             A = t.get_adjacency_matrix().toarray()
             want = np.zeros((n, n), dtype=np.int32)
